@@ -435,7 +435,7 @@ XmlDenotes ==
 ProvNDenotes ==
   LET src == ModelSrc("d1")
       pn  == EncPN(ms, "d1")
-  IN APNWf(pn) => (ReadBagEq(ReadAPN(pn), src) \/ ReadBagEq(ReadAPNS(pn, TRUE), src) \/ ShadowExplains(src, ReadAPN(pn)))
+  IN APNWf(pn) => (ReadBagEq(ReadAPN(pn), src) \/ ReadBagEq(ReadAPNS(pn, TRUE), src) \/ ShadowExplains(src, ReadAPN(pn)) \/ ShadowExplains(src, ReadAPNS(pn, TRUE)))
 (* ... and read by the transcription of the library's own PROV-XML reader (DecX): C02 on the model *)
 XmlRoundTrip ==
   LET src == ModelSrc("d1") IN
